@@ -248,6 +248,14 @@ func genPem(g *hx.Gen, r *hx.Rand) {
 	switch r.Intn(8) {
 	case 0, 1, 2: // legacy PEM encryption
 		pass = []byte(hx.Pick(r, []string{"pw", "secret phrase"}))
+		if r.Chance(1, 2) {
+			n := hx.Pick(r, []int{8, 16, 55, 56, 57, 64, 65, 72, 73, 128, 129, 200})
+			pass = make([]byte, n)
+			for i := range pass {
+				pass[i] = byte('A' + (i*5+n)%26)
+			}
+			g.Stat(fmt.Sprintf("pem.passlen.%d", n))
+		}
 		ci := r.Intn(5)
 		c := []x509.PEMCipher{x509.PEMCipherDES, x509.PEMCipher3DES, x509.PEMCipherAES128, x509.PEMCipherAES192, x509.PEMCipherAES256}[ci]
 		cov.Hit("pem.legacyCipher", []string{"DES", "3DES", "AES128", "AES192", "AES256"}[ci])
@@ -259,8 +267,25 @@ func genPem(g *hx.Gen, r *hx.Rand) {
 			case 0:
 				mode = "plain" // → PassphraseMissingError
 			case 1:
-				mode, pass = "pass", append(pass, 'x')
+				mode = "pass"
 				class += "+wrong-pass"
+				switch r.Intn(5) {
+				case 0:
+					pass = append(bytes.Clone(pass), 'x')
+				case 1:
+					pass = append(bytes.Clone(pass), 0)
+				case 2:
+					pass = bytes.Clone(pass[:len(pass)-1])
+				case 3:
+					pass = bytes.Clone(pass)
+					pass[len(pass)-1] ^= 1
+				case 4:
+					if n := hx.Pick(r, []int{8, 16, 55, 56, 64, 72, 127, 128}); n < len(pass) {
+						pass = bytes.Clone(pass[:n])
+					} else {
+						pass = append(bytes.Clone(pass), 'y')
+					}
+				}
 			default:
 				mode = "pass"
 			}
